@@ -24,6 +24,8 @@ Definition probe_row_ok (row : hexs * N * (N * Z * hexs * hexs) * hexs * bool * 
       let run := probe_run k in
       let '(o, p, n, _) := invoke (fun _ => run) r queued in
       let bs := unhex rsp in
+      (* what Invoke returns for a one-way request is never written anywhere: only the dispatch is compared *)
+      if oneway r then (if counted then N.of_nat n else 0) =? calls else
       match decode_reply bs with
       | Some d => reply_matches o (is_disp_err run) (is_done run) p (d, bs) &&
                   (* the implementation is entered exactly when the model dispatches *)
